@@ -47,6 +47,7 @@ enum OpKind {
 	OP_SAVE, OP_LOAD, OP_CRASH_RESTART, OP_CLEAN_RESTART,
 	OP_ENTER, OP_EXIT, OP_COPY, OP_REPLAY_TRANSITION,
 	OP_DELIVER, OP_LOGGER_ATTACH, OP_LOGGER_DETACH,
+	OP_CHANNEL_DROP, OP_CHANNEL_DUP, OP_CHANNEL_SWAP,
 	OP_CONSTRUCT,
 	OP_COUNT
 };
@@ -81,6 +82,7 @@ struct Case {
 	uint8_t logger0 = 0;         // logger attached from construction
 	uint8_t replicas = 0;        // number of replica instances fed through the channel (0..2)
 	uint8_t in_contract = 0;     // never exceed the substitution limit (C18 profile)
+	uint8_t lossy = 0;           // replication channel may drop / duplicate / reorder transition messages (healed at the end)
 	std::vector<Op> ops;         // ops[0] is always OP_CONSTRUCT (its reactions apply to the activation of an automatic machine)
 };
 
